@@ -47,13 +47,34 @@ Proof. exact no_restart_beyond_limit. Qed.
 
 (* never twice concurrently, and only after the delay: between two consecutive invocations the
    previous one ended, with an Exception, nothing happened in between, and the restart comes
-   exactly RESTART_DELAY after that failure *)
-Theorem C10_delay : forall limit s0 tr1 ta mid tb tr2 s,
+   exactly the actor's restart delay after that failure -- for EVERY delay (an actor's
+   `self.RESTART_DELAY` may be overridden by a subclass or on the instance) ... *)
+Theorem C10_delay : forall limit delay s0 tr1 ta mid tb tr2 s,
+  lrun limit delay s0 (tr1 ++ (ta, LEnter) :: mid ++ (tb, LEnter) :: tr2) = Some s ->
+  count is_enter mid = 0%nat ->
+  exists pre t1, mid = pre ++ [(t1, LExit Exc)] /\ count is_exit pre = 0%nat /\ tb = t1 + delay.
+Proof. exact restart_spacing. Qed.
+
+(* ... in particular for the base-class constant translated from /repo *)
+Theorem C10_delay_default : forall limit s0 tr1 ta mid tb tr2 s,
   lrun limit actor_restart_delay_us s0 (tr1 ++ (ta, LEnter) :: mid ++ (tb, LEnter) :: tr2) = Some s ->
   count is_enter mid = 0%nat ->
   exists pre t1, mid = pre ++ [(t1, LExit Exc)] /\ count is_exit pre = 0%nat /\
                  tb = t1 + actor_restart_delay_us.
 Proof. intros limit. exact (restart_spacing limit actor_restart_delay_us). Qed.
+
+(* a cancel request during the delay prevents the re-invocation *)
+Theorem C10_cancel_in_delay_prevents_restart : forall limit delay l n since tb r,
+  count is_enter l = 0%nat ->
+  lrun limit delay (Delay n since true) (l ++ (tb, LEnter) :: r) = None.
+Proof. intros. apply delay_pending_rejects_enter. assumption. Qed.
+
+(* in the global system every loop task steps under its OWN actor's limit and delay *)
+Theorem C10_loop_uses_own_config : forall c st t tid le st',
+  gstep c st t (GLoop tid le) = Some st' ->
+  exists a s s', g_tasks st tid = Some (TLoop a s) /\ le <> LCancel /\
+                 lstep (c_limit c a) (c_delay c a) s t le = Some s' /\ g_tasks st' tid = Some (TLoop a s').
+Proof. exact loop_step_uses_own_config. Qed.
 
 Theorem C10_first_run_immediate : forall limit delay t0 l tb r s,
   count is_enter l = 0%nat ->
@@ -155,7 +176,7 @@ Proof. exact run_progress. Qed.
 (* non-vacuity: limit 1, two failures (the second one while being cancelled), stop() during the
    first run with an extra failing task; the model accepts the trace and computes the group *)
 Example C10_nonvacuous :
-  let c := mkC (fun _ => Some 1%nat) actor_restart_delay_us in
+  let c := mkC (fun _ => Some 1%nat) (fun _ => actor_restart_delay_us) in
   let tr := [(0, GStart 0 1 true); (0, GLoop 1 LEnter); (10, GAdd 0 2); (20, GLoop 1 (LExit Exc));
              (20 + actor_restart_delay_us, GLoop 1 LEnter); (3000000, GStopCall 0 1 [1; 2]%nat);
              (3000000, GLoop 1 LDeliver); (3000000, GLoop 1 (LExit Exc)); (3000000, GExtraDone 2 BaseExc);
@@ -175,6 +196,9 @@ Print Assumptions C10_restart_after_exception.
 Print Assumptions C10_no_restart_after.
 Print Assumptions C10_no_restart_beyond_limit.
 Print Assumptions C10_delay.
+Print Assumptions C10_delay_default.
+Print Assumptions C10_cancel_in_delay_prevents_restart.
+Print Assumptions C10_loop_uses_own_config.
 Print Assumptions C10_first_run_immediate.
 Print Assumptions C10_sequential.
 Print Assumptions C10_start_idempotent.
